@@ -1799,17 +1799,19 @@ fn tie_mode_bend(song: &mut Song) {
     let bend0 = Event::pitch_bend(last_note.time, trk!(song).channel, 8192);
     trk!(song).events.push(bend0);
     let mut lastpos = last_note.time + last_note.v2;
+    let mut prev_no = last_note.v1; // pitch that is sounding now
     while trk!(song).tie_notes.len() > 0 {
         let next_event = trk!(song).tie_notes.remove(0);
         lastpos = next_event.time + next_event.v2;
-        // same note no
-        if last_note.v1 == next_event.v1 {
+        // same note no as the one sounding
+        if prev_no == next_event.v1 {
             // add note length
             let time_pos = next_event.time + next_event.v2;
             last_note.v2 = time_pos - last_note.time;
             continue;
         }
-        // calc pitch range
+        prev_no = next_event.v1;
+        // calc pitch range (relative to the sustained first note)
         // bend value range: -8192 to 8191
         let note_diff: isize = next_event.v1 - last_note.v1;
         let bend_event = Event::pitch_bend(
